@@ -815,6 +815,14 @@ class World:
             if step[3] % 4 == 1:
                 si.info["value"] = list(val)
                 val = (x for x in list(val))          # an unsized one-shot iterable
+            elif step[3] % 4 == 2:
+                # one of the caller-owned tuples (vectors built over it may be alive): the table must still own its column
+                fits = [tp for tp, _tok in self.tuples.values() if len(tp) == len(a.obj)]
+                if fits:
+                    val = fits[0]
+                    si.info["value"] = list(val)
+                    si.info["ragged"] = False
+                    si.info["caller_tuple"] = True
         si.may_change = self.write_set(a)
         si.info.update(col=i, accessor=acc, target=a.id, before=snap(a.obj))
         si.info.setdefault("value", list(val) if not hasattr(val, "__next__") else [])
